@@ -235,6 +235,27 @@ def emb_for2(matrix, variant):
     return "\n".join(lines) + "\n"
 
 
+def emb_for3(matrix, variant):
+    """Nodes spread over several types: constant virtual fields (and, in one variant, an enum value) that
+    refer to each other with `Type.name` references, so a cycle runs through two or three scopes."""
+    n = len(matrix)
+    k = 2 if variant == 10 else 3
+    owner = lambda i: i % k
+    as_enum = lambda i: variant == 12 and i == 0
+    ref = lambda j: ("(Ee.VAL%d == Ee.VAL%d ? 1 : 0)" % (j, j)) if as_enum(j) else ("Tt%d.f%d" % (owner(j), j))
+    lines = ['[$default byte_order: "LittleEndian"]']
+    for t in range(k):
+        lines.append("struct Tt%d:" % t)
+        lines.append("  0 [+1]  UInt  base")
+        for i in range(n):
+            if owner(i) == t and not as_enum(i):
+                lines.append("  let f%d = %s" % (i, " + ".join(["1"] + [ref(j) for j in range(n) if matrix[i][j]])))
+    if variant == 12:
+        lines.append("enum Ee:")
+        lines.append("  VAL0 = %s" % " + ".join(["1"] + [ref(j) for j in range(n) if matrix[0][j]]))
+    return "\n".join(lines) + "\n"
+
+
 def py_cyclic(matrix):
     n = len(matrix)
     R = [row[:] for row in matrix]
@@ -246,7 +267,7 @@ def py_cyclic(matrix):
 
 
 def front_end_on(matrix, variant=-1):
-    text = emb_for(matrix) if variant < 0 else emb_for2(matrix, variant)
+    text = emb_for(matrix) if variant < 0 else emb_for2(matrix, variant) if variant < 10 else emb_for3(matrix, variant)
     from compiler.front_end import emboss_front_end
     real = emboss_front_end._find_in_dirs_and_read([common.REPO])
 
@@ -256,7 +277,7 @@ def front_end_on(matrix, variant=-1):
     ir, _, errors = glue.parse_emboss_file("graph.emb", rd)
     cyc = any("Dependency cycle" in m.message for grp in (errors or []) for m in grp)
     order = None
-    if ir is not None:
+    if ir is not None and variant < 10:
         st = [t for t in ir.module[0].type if t.name.name.text == "Graph"][0].structure
         names = [st.field[i].name.name.text for i in st.fields_in_dependency_order]
         order = [x for x in names if x.startswith("f")]
@@ -268,7 +289,7 @@ def _fe_job(job):
     r = _fe_job1(matrix, variant)
     if r is not None:
         r["variant"] = variant
-        r["text"] = emb_for(matrix) if variant < 0 else emb_for2(matrix, variant)
+        r["text"] = emb_for(matrix) if variant < 0 else emb_for2(matrix, variant) if variant < 10 else emb_for3(matrix, variant)
     return r
 
 
@@ -285,6 +306,8 @@ def _fe_job1(matrix, variant):
     if not want:
         if rejected:
             return {"matrix": matrix, "problem": "acyclic graph rejected"}
+        if order is None:
+            return None  # nodes in several types: no single structure whose field order could be inspected
         n = len(matrix)
         pos = {name: k for k, name in enumerate(order)}
         for i in range(n):
@@ -362,7 +385,7 @@ def main(tier):
         results = pool.map(_job, jobs)
         # translator validation through the whole front end: every 3-node graph (quick: a seeded sample)
         mats = [[[(bits >> (i * 3 + j)) & 1 for j in range(3)] for i in range(3)] for bits in range(512)]
-        fe = pool.map(_fe_job, [(m, v) for m in mats for v in (-1, 0, 1, 2)], chunksize=8)
+        fe = pool.map(_fe_job, [(m, v) for m in mats for v in (-1, 0, 1, 2, 10, 11, 12)], chunksize=8)
     tot = {"paths": 0, "obligations": 0, "discharged": 0}
     cands = []
     detail = {}
@@ -408,8 +431,8 @@ def main(tier):
         "functions_encoded": ["dependency_checker._find_cycles", "dependency_checker._find_dependency_ordering_for_fields_in_structure",
                               "whole front end (glue.parse_emboss_file) on rendered 3-node graphs: _find_dependencies, find_dependency_cycles, set_dependency_order"],
         "bounds": {"nodes": "cycles N <= %d, ordering N <= %d (all graphs)" % (4 if tier == "thorough" else 3, 5 if tier == "thorough" else 4),
-                   "front end": "every 3-node graph, rendered four ways (virtual fields; physical fields depending through locations, existence conditions and type-parameter arguments)",
-                   "outside": "import cycles (same _find_cycles on the module graph); dependencies through enum values and parameters in the rendered modules"},
+                   "front end": "every 3-node graph, rendered seven ways (virtual fields; physical fields depending through locations, existence conditions and type-parameter arguments; constants spread over two or three types, one of them an enum value, referring to each other as Type.name)",
+                   "outside": "import cycles (same _find_cycles on the module graph)"},
     })
     return rep.finish()
 
